@@ -1370,6 +1370,9 @@ class WcParse(Generic[AnyStr]):
                     current.append(value)
                 self.consume_path_sep(i)
                 current.append(sep)
+            elif not capture and len(current) > 1 and current[-2] == f'({globstar})':
+                # A `***` merged into a preceding `**`: the merged `globstar` follows links, so it must not capture.
+                current[-2] = globstar
             if self.realpath and dir_only and i.index >= len(i._string):
                 # The pattern ends with `**/`
                 current[-1] = _GLOBSTAR_DIR_DIV.format(self.sep)
